@@ -240,6 +240,7 @@ fn c08_case(seed: u64, cx: &mut Ctx) -> (Vec<Failure>, bool, u64) {
     let ids: Vec<u64>;
     let final_dump: Vec<Map>;
     let mut leaked = false;
+    let mut lazy_iters = 0u64;
     let (seqno, visible);
     macro_rules! body {
         ($db:expr, $kss:expr, $txe:expr, $doer:ident, $commit:expr) => {{
@@ -247,7 +248,16 @@ fn c08_case(seed: u64, cx: &mut Ctx) -> (Vec<Failure>, bool, u64) {
             seqno = $db.inner().seqno();
             visible = $db.inner().visible_seqno();
             let mut tx = $txe;
-            for op in &prog {
+            // an iterator made inside the transaction and consumed only after further writes of the same
+            // transaction is frozen at its creation (C05): compared with a scan consumed at once at that point
+            let hold_at = if r.chance(1, 3) && !prog.is_empty() { Some(r.range(0, prog.len() - 1)) } else { None };
+            let mut held: Option<(usize, fjall::Iter, String)> = None;
+            for (opi, op) in prog.iter().enumerate() {
+                if hold_at == Some(opi) {
+                    let k = r.range(0, nks - 1);
+                    let now = pairs(tx.iter($kss[k].inner())).unwrap_or_else(|e| format!("err:{e}"));
+                    held = Some((k, tx.iter($kss[k].inner()), now));
+                }
                 match $doer(&mut tx, &$kss, op) {
                     Ok(o) => outs_real.push(o),
                     Err(e) => { fails.push(Failure { kind: "impl-vs-oracle", detail: format!("{op:?} failed: {e}") }); break; }
@@ -256,6 +266,11 @@ fn c08_case(seed: u64, cx: &mut Ctx) -> (Vec<Failure>, bool, u64) {
                 if op.is_write() && r.chance(1, 3) {
                     for k in 0..nks { if dump($kss[k].inner()) != before[k] { leaked = true; } }
                 }
+            }
+            if let Some((k, it, want)) = held.take() {
+                let got = pairs(it).unwrap_or_else(|e| format!("err:{e}"));
+                lazy_iters += 1;
+                if got != want { fails.push(Failure { kind: "impl-vs-oracle", detail: format!("an iterator over keyspace {k} created inside the transaction before op #{} and consumed after the later operations yields {got}; consumed at once at its creation it yields {want}: it is not frozen; program={:?}", hold_at.unwrap(), prog) }); }
             }
             match ending {
                 0 => { $commit(tx); }
@@ -278,6 +293,7 @@ fn c08_case(seed: u64, cx: &mut Ctx) -> (Vec<Failure>, bool, u64) {
     }
     if !fails.is_empty() { return (fails, false, 0); }
     if leaked { fails.push(Failure { kind: "impl-vs-oracle", detail: format!("seed {seed}: a write inside an open transaction is visible outside before commit") }); }
+    *cx.hist.entry("iterator-held-across-later-writes".into()).or_insert(0) += lazy_iters;
     // oracle: overlay semantics
     let mut overlay = refm.clone();
     let outs_ref: Vec<String> = prog.iter().map(|op| ref_op(&mut overlay, op)).collect();
